@@ -410,6 +410,15 @@ def replay(ctx, case):
     if leg == "trxcon":
         from vlib.props import c14_trxcon
         return c14_trxcon.replay(ctx, case)
+    if leg == "baseline":
+        extra, events = sessions()[case["session"]]
+        W = AppWorld(trxmodel.std_config(extra))
+        for k, ev in enumerate(events):
+            v = do_event(W, ev)
+            if v:
+                ctx.violation("C14:py:session-baseline:%s" % case["session"], case, "fault-free session fails at %d: %s" % (k, v[0][1]))
+                break
+        return
     if leg == "session":
         extra, events = sessions()[case["session"]]
         p = bytes.fromhex(case["payload"])
@@ -445,7 +454,7 @@ def replay(ctx, case):
         dd = data_dump.DATADumpFile(io.BytesIO(bytes.fromhex(case["image"])))
         what = case["call"]
         try:
-            eval("dd." + what)
+            eval("dd." + (what if "(" in what else what + "()"))
         except Exception as e:
             ctx.violation("C14:py:capture:%s:%s" % (what.split("(")[0], type(e).__name__), case, "%s: %s" % (type(e).__name__, e))
         dd.f = io.BytesIO()
